@@ -28,6 +28,10 @@ def main():
                 out = os.path.join(scratch, "out.json")
                 cmd = [os.path.join(VERIF, "bin", "govc"), "-repo", dst, "-specs", os.path.join(VERIF, "specs"),
                        "-props", ",".join(m["props"]), "-out", out]
+                # a change in one package can only invalidate obligations of that package's functions and theorems (callers in
+                # other packages use the contracts, not the bodies): restrict the run to them
+                pkg = os.path.basename(os.path.dirname(m["file"]))
+                cmd += ["-func", pkg + "."]
                 p = subprocess.run(cmd, capture_output=True, text=True)
                 if p.returncode != 0:
                     print(f"{m['id']}: ENGINE ERROR {p.stderr[-300:]}"); res[m["id"]] = "error"; continue
